@@ -70,3 +70,25 @@ def unique_inverse():
                 print('REPLAY: VIOLATION-CONFIRMED')
                 return
     print('REPLAY: not reproduced')
+
+
+def inflate_assparse():
+    """sparse extraction of Inflate with a multi-dimensional dofmap against dense evaluation"""
+    from nutils import evaluable as ev
+    rng = numpy.random.RandomState(1)
+    for shape in [(2, 2, 3), (3, 2), (2, 3, 2), (4,)]:
+        n = int(numpy.prod(shape))
+        a = ev.Argument('a', tuple(ev.constant(s) for s in shape), float)
+        dof = ev.constant(rng.permutation(n).reshape(shape))
+        f = ev.Inflate(a, dof, ev.constant(n)).simplified
+        val = rng.rand(*shape)
+        dense = numpy.asarray(ev.eval_once(f, arguments={'a': val}))
+        values, indices, shp = f.assparse
+        v, *ix = ev.eval_once((values, *indices), arguments={'a': val})
+        sparse = numpy.zeros(dense.shape)
+        numpy.add.at(sparse, tuple(ix), v)
+        if not numpy.allclose(sparse, dense):
+            print('Inflate with dofmap of shape %s: sparse data scatter to %s, dense value %s' % (shape, sparse.tolist(), dense.tolist()))
+            print('REPLAY: VIOLATION-CONFIRMED sparse extraction does not denote the dense array')
+            return
+    print('REPLAY: not reproduced')
